@@ -1,6 +1,6 @@
 (* Trusted glue: reads one case per line, runs the extracted Coq model / spec
    oracle, prints one canonical result per line. *)
-open Model
+open Model_wire
 
 let rec pos_of_int (i : int) : positive =
   if i = 1 then XH else if i land 1 = 0 then XO (pos_of_int (i lsr 1)) else XI (pos_of_int (i lsr 1))
